@@ -229,7 +229,13 @@ def run(tier: str) -> int:
             x = _mk(cls, c["atoms"], c["par"], idmap)
             n_single += 1
             try:
+                hash(x)                      # a descriptor that has been hashed / compared before being inverted
                 xi = x.invert()
+                fresh = cls(xi.atoms, xi.parity)
+                if not ((xi == fresh) is True and hash(xi) == hash(fresh)):
+                    rep.violation(f"C04|{n}|inverted-object-differs-from-fresh-equal-descriptor",
+                                  f"{n}: x.invert() is unequal to, or hashes differently from, a freshly built descriptor with "
+                                  f"the same atoms and parity", {"x": c, "idmap": idmap})
                 xii = xi.invert()
                 ok2 = (xii.atoms == x.atoms and xii.parity == x.parity and xii == x)
             except Exception as e:
